@@ -66,7 +66,8 @@ func RunTruncBig(seed int64, all bool) (out []Ev) {
 		c.CreateColumn("memo", column.ForString())
 		return c
 	}
-	P := mk(nil)
+	src := &digestLogger{} // the source's own commits, digested the same way
+	P := mk(src)
 	defer P.Close()
 	rows := 2*16384 - rnd.Intn(50)
 	// the string payload of one block is about 1.2 MB or (every other seed) about 2.7 MB: in the second case the
@@ -120,8 +121,10 @@ func RunTruncBig(seed int64, all bool) (out []Ev) {
 		}
 	}
 	var buf bytes.Buffer
+	before := len(src.items)
 	err := P.Snapshot(&buf)
 	column.VerifYield = nil
+	rec := append([]string{}, src.items[before:]...) // every commit between the snapshot's start and its end
 	if err != nil {
 		w.T.Log(Ev{"e": "unsupported", "what": "snapshot: " + err.Error()})
 		return w.T.Finish()
@@ -135,7 +138,7 @@ func RunTruncBig(seed int64, all bool) (out []Ev) {
 		return w.T.Finish()
 	}
 	S.Close()
-	w.T.Log(Ev{"e": "pref", "items": ref.items, "nb": 2, "bytes": len(blob), "frames": len(frameBoundaries(blob))})
+	w.T.Log(Ev{"e": "pref", "items": ref.items, "nb": 2, "rec": rec, "bytes": len(blob), "frames": len(frameBoundaries(blob))})
 	cuts := map[int]bool{0: true, len(blob): true, len(blob) - 1: true}
 	for _, f := range frameBoundaries(blob) {
 		for d := -2; d <= 2; d++ {
